@@ -14,7 +14,7 @@
     - [var_elast], [par_elast], [resp_seq], [resp_par]   the routines;
     - [pl_fluxes]           power-law networks  v_r = prod_a env(a)^(n_ra)  (rate constants are
                             factors of order 1), used for the correspondence and the theorems. *)
-From Coq Require Import QArith List NArith Bool.
+From Coq Require Import QArith Qabs List NArith Bool.
 From MxlBase Require Import ListX.
 Import ListNotations.
 Open Scope Q_scope.
@@ -87,6 +87,19 @@ Definition disp_width (q : quot_kind) (old d : Q) : Q :=
 (** [(upper - lower) / distance], then [*= old / base] when normalised *)
 Definition coef_cell_q (q : quot_kind) (up lo base old d : Q) (normalized : bool) : cell :=
   let raw := xdiv (up - lo) (disp_width q old d) in
+  if normalized then xmul raw (xdiv old base) else raw.
+
+(** REGRESSION MODEL (not a rule the extractor ever regenerates; an edited helper gives
+    [QuotUnknown]): a helper [_displace] that tests closeness to zero with an absolute tolerance,
+        if math.isclose(value, 0.0, abs_tol=tol): return displacement, -displacement, 2 * displacement
+    instead of  value == 0.  [math.isclose(v, 0, abs_tol=t)] is  |v| <= max(1e-9 |v|, t),  i.e.
+    |v| <= t  for t >= 0.  With tol = 0 this is the helper of the tree ([QuotCentralRelAbs0]). *)
+Definition near0 (tol x : Q) : bool := Qle_bool (Qabs x) tol.
+Definition disp_up_tol (tol old d : Q) : Q := if near0 tol old then d else old * (1 + d).
+Definition disp_lo_tol (tol old d : Q) : Q := if near0 tol old then - d else old * (1 - d).
+Definition disp_width_tol (tol old d : Q) : Q := if near0 tol old then 2 * d else 2 * d * old.
+Definition coef_cell_tol (tol up lo base old d : Q) (normalized : bool) : cell :=
+  let raw := xdiv (up - lo) (disp_width_tol tol old d) in
   if normalized then xmul raw (xdiv old base) else raw.
 
 (* ------------------------------------------------------------------------------------- *)
